@@ -157,6 +157,16 @@ def build_model(cfg):
             ml.ConvContract(sig_in, mid, bank, bias, key=k1),
             ml.ConvContract(mid, sig_out, bank, bias, rhs_dilation=(dil,) * D, key=k2),
         ])
+    if arch == "groupavg":
+        # symmetrisation wrapper in inference mode around a NON-equivariant trainable layer (filters off the
+        # invariant subspace): equivariant exactly as long as the wrapper keeps averaging
+        import jax.numpy as jnp
+
+        nrng = np.random.Generator(np.random.PCG64(cfg["init_seed"]))
+        noisy = geom.MultiImage({kp: v + jnp.asarray(0.5 * nrng.normal(size=v.shape), dtype=v.dtype)
+                                 for kp, v in bank.items()}, bank.D, bank.is_torus)
+        inner = cls["ConvSeq"]([ml.ConvContract(sig_in, sig_out, noisy, bias, key=key)])
+        return models.GroupAverage(inner, geom.make_all_operators(D), always_average=False, inference=True)
     if arch == "block":
         mid = geom.signature_union(sig_in, sig_out, depth)
         k1, k2, k3 = random.split(key, 3)
@@ -602,6 +612,8 @@ def plan(ctx: Ctx) -> list:
                             use_bias=pick(bias_modes), depth=pick([1, 2, 3])))
         out.append(base_cfg(rng, arch=["conv", "block"][ctx.seed % 2], optimizer="sgd", lr=0.02, batch=2, epochs=2,
                             stop="reused", sig=pick(["s-v>v-s", "s-v>s-v-ps"]), use_bias=pick(bias_modes)))
+        out.append(base_cfg(rng, arch="groupavg", optimizer=pick(["sgd", "adam"]), lr=0.02, batch=2, epochs=1,
+                            sig=pick(["s-v>v-s", "s-ps>v"]), use_bias=pick(bias_modes), input_kinds=["normal"]))
         return out
     # thorough: 3 optimisers x 5 architectures, then variations
     for arch in ["conv", "block", "unet", "resnet", "dilresnet"]:
@@ -635,6 +647,8 @@ def plan(ctx: Ctx) -> list:
         dict(arch="conv", optimizer="adam", lr=0.02, batch=2, epochs=2, sig="s-v>v-s", depth=2),
         dict(arch="resnet", optimizer="sgd", lr=0.02, batch=2, epochs=2, sig="s-v>v-s"),
         dict(arch="unet", optimizer="adamw", lr=0.02, weight_decay=0.2, batch=2, epochs=1, sig="s-v>v-s", spatial=[8, 8]),
+        dict(arch="groupavg", optimizer="adam", lr=0.02, batch=2, epochs=2, sig="s-v>v-s"),
+        dict(arch="groupavg", optimizer="adamw", lr=0.02, weight_decay=0.2, batch=1, epochs=1, sig="v-ps>v-ps", validation=True),
         dict(arch="conv", optimizer="sgd", lr=0.02, batch=2, epochs=2, stop="reused", sig="s-v>v-s"),
         dict(arch="block", optimizer="sgd", lr=0.02, batch=2, epochs=3, stop="reused", sig="s-v>s-v-ps"),
         dict(arch="resnet", optimizer="sgd", lr=0.02, batch=1, epochs=2, stop="reused", sig="s-ps>s-ps"),
@@ -690,7 +704,8 @@ def set_texts(ctx: Ctx):
         "with/without validation data x bias mode x activation; EpochStop, ValLoss, a user-defined best-model "
         "selection, or ONE TrainLoss object reused for two consecutive ml.train calls (a non-equivariant baseline first, "
         "whose loss the second call never beats); one history per run on a signature without pseudo-types (complete "
-        "filter table, equal channel counts, hidden signature listing the vector first); smse loss, in one history per tier and architecture plus a quadratic pull of all parameters "
+        "filter table, equal channel counts, hidden signature listing the vector first); one history per run whose model is "
+        "the group-averaging wrapper in inference mode around a non-equivariant layer; smse loss, in one history per tier and architecture plus a quadratic pull of all parameters "
         "towards generic far-away values), observed "
         "at the returned model: static structure, filter-bank leaves, parameter leaves, and model(g.x) = g.model(x) "
         "for all 7 non-identity g of B_2 (7 seeded elements of B_3 incl. a reflection and an axis swap for the d=3 run) "
